@@ -12,8 +12,10 @@
    variable names, values equal after [erase m], the very same function tables.
 
    FRAGMENT ([in_fragment m idx Cx e], Eval/MarksNI_Eval.v): ALL 19 expression constructors, with these
-   side conditions (each is either forced by a witness below or marked as a restriction of the proof):
-     - literals: the value is well-formed (no mark directly under a mark; go-cty never builds one)
+   side conditions (each is forced by a witness below, or marked as a restriction of the proof):
+     - literals and context values: well-formed (wf): mark sets non-empty, no mark directly under a
+       mark, elements of a list / set / map of element type t have type t — the invariants of go-cty
+       values; eval_wf proves the evaluator preserves them.
      - coll[key]: [key_ok]: idx is non-interfering (index_repaired), OR the key is a literal, OR coll
        never evaluates to a value of object type (nonobj).  Forced by C06_index_ni_refuted (object
        indexed by a marked KNOWN key; known finding object-index-marked-key).
@@ -21,23 +23,30 @@
      - [c ? t : f] (cond_side): (1) t and f never fail          C06_cond_refuted_dropped_diags (known
        finding cond-unselected-arm-error-dropped); (2) neither result carries m below its top level,
        OR both have static types                               TYPE-ONLY witness C06_cond_refuted_elem_type
-       [in the static alternative "no structural conversion" (cond_ok_ty) is a restriction of the proof]
      - f(a, xs...): the expanded collection xs is never marked m at its top (expand_side)
                                                                MARK-ONLY witness C06_call_expand_refuted_first
      - for: the condition and key expressions never evaluate to null (nonnull)
                                                                MARK-ONLY witness C06_for_refuted_null_cond
-     - splat: the source is never a list or set nor an unknown tuple (splat_side): a restriction of the
-       PROOF (missing typing invariant); related TYPE-ONLY witness C06_splat_refuted_elem_type
-     - functions (funcs_ni): fn_ni (the contract), well-formed results, and parameter types primitive
-       or dynamic — the last is a restriction of the PROOF.
+     - src[*]each (splat_side): the source is never a list / set / unknown tuple, OR the type of
+       each(item) depends only on the type of the item (each_ty_stable; holds for attribute and
+       literal-index traversals of the item: C06_each_ty_stable_trav)
+                                                               TYPE-ONLY witness C06_splat_refuted_elem_type
+     - functions (funcs_ni): fn_ni (the contract), well-formed results, and no parameter type contains
+       an OBJECT type — the last is the only remaining restriction of the PROOF (conversion to an
+       object type looks attributes up by name; when the two argument types differ under a mark the
+       proof would need "attribute names are unique", which is not threaded through the evaluator).
+       Conversions to every other target, and to object targets when the two source types are equal,
+       are covered (C06_conv_leq).
    [Cx] is any class of contexts with well-formed values and functions with well-formed results that
-   is closed under the child contexts of for expressions; [ctx_ok] is the largest one.
+   is closed under the child contexts of for and splat expressions; [ctx_ok] is the largest one.
    MARK-ONLY: the two results have equal content, one lacks the mark.  TYPE-ONLY: both results
-   contain the mark, a visible declared type differs. *)
+   contain the mark, a visible declared type differs.
+   Eval/MarksNI_Check.v: [in_fragmentb], a sound syntactic recogniser of the fragment
+   (C06_in_fragmentb_sound), and the case checker used by harness/cmd/c06. *)
 From Coq Require Import QArith.
 From HclV Require Import Base.Prelude Cty.Values Cty.Convert Cty.Ops Eval.Impl Eval.Funcs
-     Eval.MarksNI Eval.MarksNI_Ops Eval.MarksNI_Index Eval.MarksNI_Funcs Eval.MarksNI_Steps
-     Eval.MarksNI_Eval Eval.MarksNI_Wf Eval.MarksNI_Main Eval.MarksNI_Refuted.
+     Eval.MarksNI Eval.MarksNI_Ops Eval.MarksNI_Index Eval.MarksNI_Conv Eval.MarksNI_Funcs Eval.MarksNI_Steps
+     Eval.MarksNI_Eval Eval.MarksNI_Wf Eval.MarksNI_Main Eval.MarksNI_Refuted Eval.MarksNI_Check.
 Open Scope Z_scope.
 
 (* ---- the theorem --------------------------------------------------------------------------------
@@ -52,6 +61,7 @@ Theorem C06_marks_noninterference_partial :
     (forall c, Cx c -> wf_ctx c) ->
     (forall c, Cx c -> funcs_wf c) ->
     (forall c vars, Cx c -> (forall k v, In (k, v) vars -> wf v) -> Cx (child_ctx c vars)) ->
+    (forall c, Cx c -> Cx (mkFrame None None :: c)) ->
     (forall c k, wf c -> wf k -> wf (fst (idx c k))) ->
   forall fuel c1 c2 a1 a2 e v1 ds1 v2 ds2,
     in_fragment m idx Cx e ->
@@ -116,6 +126,30 @@ Print Assumptions C06_key_ok_index_nonobj.
 Theorem C06_key_ok_repaired : forall m Cx coll key, key_ok m index_repaired Cx coll key.
 Proof. exact key_ok_repaired. Qed.
 Print Assumptions C06_key_ok_repaired.
+
+(* ---- side conditions that hold syntactically ------------------------------------------------------ *)
+(* Each = the item itself, or an attribute / literal-index traversal of it *)
+Theorem C06_each_ty_stable_anon : forall m idx Cx, each_ty_stable m idx Cx EAnon.
+Proof. exact each_ty_stable_anon. Qed.
+Print Assumptions C06_each_ty_stable_anon.
+
+Theorem C06_each_ty_stable_trav : forall m idx Cx steps, each_ty_stable m idx Cx (ERelTrav EAnon steps).
+Proof. exact each_ty_stable_trav. Qed.
+Print Assumptions C06_each_ty_stable_trav.
+
+(* the boolean recogniser used by the harness is sound *)
+Theorem C06_in_fragmentb_sound : forall m e, in_fragmentb m e = true -> in_fragment m index ctx_ok e.
+Proof. exact in_fragmentb_sound. Qed.
+Print Assumptions C06_in_fragmentb_sound.
+
+(* convert.Convert respects low-equivalence for every target type (element-wise for structural
+   targets), provided the two source types are equal or the target contains no object type *)
+Theorem C06_conv_leq :
+  forall m v1 v2 w r1 r2,
+    leq m v1 v2 -> wf v1 -> wf v2 -> (type_of v1 = type_of v2 \/ noobj w = true) ->
+    conv v1 w = COk r1 -> conv v2 w = COk r2 -> leq m r1 r2.
+Proof. exact conv_leq. Qed.
+Print Assumptions C06_conv_leq.
 
 (* ---- hcl.Index ------------------------------------------------------------------------------------ *)
 (* The real hcl.Index is NOT non-interfering: {a = "x", b = "y"} indexed by the marked known keys
